@@ -268,7 +268,7 @@ func init() {
 			rows = append(rows, c19LeanBytes(enc[c]))
 		}
 		bytewise := failed == 0
-		for _, p := range []string{"S1", "S/../x", "../x", "a/b", "places", "é", "a_b", "x\x00y", "@@", "S 1.html", "\xff\xfe", "AbC-9"} {
+		for _, p := range []string{"S1", "S/../x", "../x", "a/b", "Places", "é", "a_b", "x\x00y", "@@", "S 1.html", "\xff\xfe", "AbC-9"} {
 			want := ""
 			for i := 0; i < len(p); i++ {
 				want += enc[p[i]]
@@ -289,7 +289,47 @@ func init() {
 		b.WriteString("]\n\n")
 		fmt.Fprintf(&b, "/-- html.PageSource is the concatenation of the per-byte encodings plus the suffix (checked on multi-byte pointers) -/\ndef sourceKeyBytewise : Bool := %s\n\n", c19LeanBool(bytewise))
 
+		// a pointer that would name a fixed page: is its first letter written as an escape?
+		escapes := true
+		fixedStems := []string{strings.TrimSuffix(html.PagePlaces(), srcSuffix), strings.TrimSuffix(html.PageFamilies(), srcSuffix),
+			strings.TrimSuffix(html.PageSurnames(), srcSuffix), strings.TrimSuffix(html.PageSources(), srcSuffix),
+			strings.TrimSuffix(html.PageStatistics(), srcSuffix), strings.TrimSuffix(html.PageIndividuals(rune(sym)), srcSuffix),
+			strings.TrimSuffix(html.PageIndividuals('a'), srcSuffix), strings.TrimSuffix(html.PageIndividuals('z'), srcSuffix)}
+		for _, stem := range fixedStems {
+			got, ok := c19SourcePage(stem)
+			if !ok || stem == "" || got != fmt.Sprintf("_%02x%s%s", stem[0], stem[1:], srcSuffix) {
+				escapes = false
+			}
+		}
+		fmt.Fprintf(&b, "/-- html.PageSource escapes the first letter of a pointer that would name a fixed page (places, individuals-a, …) -/\ndef sourceKeyEscapesFixed : Bool := %s\n\n", c19LeanBool(escapes))
+
 		// ---- behavioural flags
+		// a living and a dead Ann Smith, placeholder mode: does the hidden one take the name?
+		skip := false
+		func() {
+			defer func() { recover() }()
+			doc, err := gedcom.NewDocumentFromString("0 @I1@ INDI\n1 NAME Ann /Smith/\n0 @I2@ INDI\n1 NAME Ann /Smith/\n1 DEAT Y\n")
+			if err != nil || len(doc.Individuals()) != 2 || !doc.Individuals()[0].IsLiving() {
+				return
+			}
+			skip = html.PageIndividual(doc, doc.Individuals()[1], html.LivingVisibilityPlaceholder, nil) ==
+				html.PageIndividual(doc, doc.Individuals()[0], html.LivingVisibilityShow, nil)
+		}()
+		fmt.Fprintf(&b, "/-- only the individuals that get a page in the chosen visibility are given a page name -/\ndef keysSkipHidden : Bool := %s\n\n", c19LeanBool(skip))
+		// a person and a place called like fixed pages, a person and a place called like a source
+		avoid := false
+		if names, ok := c19PublishedNames("0 @I1@ INDI\n1 NAME Places\n1 BIRT\n2 PLAC Statistics\n1 DEAT Y\n2 PLAC s1\n0 @I2@ INDI\n1 NAME s2\n1 DEAT Y\n" +
+			"0 @I3@ INDI\n1 NAME individuals /a/\n1 DEAT Y\n0 @s1@ SOUR\n0 @s2@ SOUR\n"); ok {
+			avoid = true
+			seen := map[string]bool{}
+			for _, n := range names {
+				if seen[n] {
+					avoid = false
+				}
+				seen[n] = true
+			}
+		}
+		fmt.Fprintf(&b, "/-- individuals and places keep off the fixed page names and the keys of the source pages -/\ndef keysAvoidReserved : Bool := %s\n\n", c19LeanBool(avoid))
 		// a person called Oldtown born in Oldtown: is the individual page kept apart from the place page?
 		names, ok := c19PublishedNames("0 @I1@ INDI\n1 NAME Oldtown\n1 BIRT\n2 PLAC Oldtown\n1 DEAT Y\n")
 		keyed := false
